@@ -9,9 +9,16 @@ use crate::Tier;
 pub const NOALLOC_CAP: usize = 384;
 
 pub fn judge(l: &mut Local, s: &[u8], fill: usize) {
+    judge_for(l, s, fill, "C03")
+}
+
+/// `prop` = "C03": full oracle; "C01": totality only; "C18": digests + capacity rule.
+pub fn judge_for(l: &mut Local, s: &[u8], fill: usize, prop: &str) {
     let got = subj::unarmor(s, fill);
     let want = unarmor_ref(s, fill);
-    let over_cap = subj::NOALLOC && (6 * s.len()).div_ceil(8) > NOALLOC_CAP;
+    let beyond = (6 * s.len()).div_ceil(8) > NOALLOC_CAP;
+    let over_cap = subj::NOALLOC && beyond;
+    let full = prop == "C03";
     let describe = |got: &UnarmorOut, want: &Option<Vec<u8>>| {
         J::obj(vec![
             ("input", J::s(esc_bytes(s))),
@@ -45,8 +52,8 @@ pub fn judge(l: &mut Local, s: &[u8], fill: usize) {
             if !s.is_empty() {
                 l.nontrivial();
             }
-            l.outcome(hash_bytes(fill as u64, g));
-            if g != w {
+            l.outcome(if beyond { crate::par::CAP_TOKEN } else { hash_bytes(fill as u64, g) });
+            if g != w && (full || (prop == "C18" && over_cap)) {
                 let sig = if g.len() != w.len() {
                     "unarmor.length"
                 } else if fill > 0 && unarmor_ref(s, 0).as_deref() == Some(&g[..]) {
@@ -61,26 +68,32 @@ pub fn judge(l: &mut Local, s: &[u8], fill: usize) {
         }
         (UnarmorOut::Err(_), None) => {
             l.class("err");
-            l.outcome(0xE);
+            l.outcome(if beyond { crate::par::CAP_TOKEN } else { 0xE });
         }
         (UnarmorOut::Err(_), Some(_)) if over_cap => {
             l.class("err_capacity");
-            l.outcome(0xCA);
+            l.outcome(crate::par::CAP_TOKEN);
         }
         (UnarmorOut::Err(_), Some(_)) => {
             l.class("err");
-            l.violation("unarmor.rejects-legal", || describe(&got, &want));
+            l.outcome(0xE);
+            if full {
+                l.violation("unarmor.rejects-legal", || describe(&got, &want));
+            }
         }
-        (UnarmorOut::Ok(_), None) => {
+        (UnarmorOut::Ok(g), None) => {
             l.class("ok");
-            l.violation("unarmor.accepts-illegal", || describe(&got, &want));
+            l.outcome(if beyond { crate::par::CAP_TOKEN } else { hash_bytes(fill as u64, g) });
+            if full {
+                l.violation("unarmor.accepts-illegal", || describe(&got, &want));
+            }
         }
     }
     l.sample(|| describe(&got, &want));
 }
 
 /// All strings over `alpha` of length exactly `len`, × fill 0..=5.
-fn all_strings(name: &str, alpha: Vec<u8>, len: usize) -> Space {
+pub fn all_strings(prop: &'static str, name: &str, alpha: Vec<u8>, len: usize) -> Space {
     let a = alpha.len() as u64;
     let size = a.pow(len as u32) * 6;
     Space::new(
@@ -94,7 +107,7 @@ fn all_strings(name: &str, alpha: Vec<u8>, len: usize) -> Space {
             for c in s.iter_mut().take(len) {
                 *c = alpha[r.take(a) as usize];
             }
-            judge(l, &s[..len], fill);
+            judge_for(l, &s[..len], fill, prop);
         },
     )
 }
@@ -112,7 +125,7 @@ fn base_string(kind: u64, len: usize) -> Vec<u8> {
 pub const LONG_LENGTHS_EXTRA: [usize; 7] = [383, 384, 385, 511, 512, 513, 1000];
 
 /// One deviation: every length × 3 base strings × every position × all 256 byte values × fill.
-fn long_one_deviation(max_short: usize) -> Space {
+pub fn long_one_deviation(prop: &'static str, max_short: usize) -> Space {
     let mut lengths: Vec<usize> = (0..=max_short).collect();
     lengths.extend(LONG_LENGTHS_EXTRA);
     // prefix sums of positions (length 0 contributes one pseudo-position so it is not lost)
@@ -155,14 +168,14 @@ fn long_one_deviation(max_short: usize) -> Space {
                 }
                 s[pos] = byte;
             }
-            judge(l, &s, fill);
+            judge_for(l, &s, fill, prop);
         },
     )
 }
 
 /// Two deviations: every adjacent pair of positions × 64² legal characters, lengths covering all
 /// four phases at the start, middle and end of the string.
-fn long_adjacent_pairs() -> Space {
+pub fn long_adjacent_pairs(prop: &'static str) -> Space {
     let lengths: Vec<usize> = vec![2, 3, 4, 5, 6, 7, 8, 9, 21, 22, 23, 24, 28, 47, 70, 71];
     let mut starts = Vec::new();
     let mut total = 0u64;
@@ -191,7 +204,7 @@ fn long_adjacent_pairs() -> Space {
             let mut s = base_string(kind, n);
             s[pos] = c0;
             s[pos + 1] = c1;
-            judge(l, &s, fill);
+            judge_for(l, &s, fill, prop);
         },
     )
 }
@@ -201,19 +214,27 @@ pub fn legal_alphabet() -> Vec<u8> {
 }
 
 pub fn spaces(tier: Tier) -> Vec<Space> {
+    spaces_for("C03", tier)
+}
+
+pub fn spaces_for(prop: &'static str, tier: Tier) -> Vec<Space> {
     let all: Vec<u8> = (0..=255u8).collect();
     let mut v = vec![
-        all_strings("UNARMOR-ALL(0)", all.clone(), 0),
-        all_strings("UNARMOR-ALL(1)", all.clone(), 1),
-        all_strings("UNARMOR-ALL(2)", all.clone(), 2),
-        all_strings("UNARMOR-64(3)", legal_alphabet(), 3),
-        all_strings("UNARMOR-64(4)", legal_alphabet(), 4),
-        long_one_deviation(96),
-        long_adjacent_pairs(),
+        all_strings(prop, "UNARMOR-ALL(0)", all.clone(), 0),
+        all_strings(prop, "UNARMOR-ALL(1)", all.clone(), 1),
+        all_strings(prop, "UNARMOR-ALL(2)", all.clone(), 2),
+        all_strings(prop, "UNARMOR-64(3)", legal_alphabet(), 3),
+        long_one_deviation(prop, 96),
     ];
+    if prop == "C03" || tier == Tier::Thorough {
+        v.push(all_strings(prop, "UNARMOR-64(4)", legal_alphabet(), 4));
+        v.push(long_adjacent_pairs(prop));
+    }
     if tier == Tier::Thorough {
-        v.push(all_strings("UNARMOR-ALL(3)", all, 3));
-        v.push(all_strings("UNARMOR-64(5)", legal_alphabet(), 5));
+        v.push(all_strings(prop, "UNARMOR-ALL(3)", all, 3));
+        if prop == "C03" {
+            v.push(all_strings(prop, "UNARMOR-64(5)", legal_alphabet(), 5));
+        }
     }
     v
 }
